@@ -8,6 +8,8 @@ import (
 // Writer represents a packet writer that sends packets to linked readers.
 type Writer struct {
 	readers   []*Reader
+	links     []uint64
+	linked    uint64
 	receives  [][]*Packet
 	in        chan *Packet
 	out       chan *Packet
@@ -133,7 +135,9 @@ func (w *Writer) Link(reader *Reader) bool {
 			return false
 		}
 	}
+	w.linked++
 	w.readers = append(w.readers, reader)
+	w.links = append(w.links, w.linked)
 	return true
 }
 
@@ -149,6 +153,7 @@ func (w *Writer) Unlink(reader *Reader) bool {
 	for i, r := range w.readers {
 		if r == reader {
 			w.readers = append(w.readers[:i], w.readers[i+1:]...)
+			w.links = append(w.links[:i], w.links[i+1:]...)
 
 			for j := range w.receives {
 				if i < len(w.receives[j]) {
@@ -191,7 +196,7 @@ func (w *Writer) Write(pck *Packet) int {
 	count := 0
 	receives := make([]*Packet, len(w.readers))
 	for i, r := range w.readers {
-		if r.write(New(pck.Payload()), w) {
+		if r.write(New(pck.Payload()), w, w.links[i]) {
 			count++
 		} else {
 			receives[i] = None
@@ -229,12 +234,17 @@ func (w *Writer) Close() {
 
 	w.done = true
 	w.readers = nil
+	w.links = nil
 	w.receives = nil
 	w.inbounds = nil
 	w.outbounds = nil
 }
 
-func (w *Writer) receive(pck *Packet, reader *Reader) bool {
+// receive takes the response of a reader to a request that was written while the reader's link
+// had the given generation. A response to a request of a link that has since been removed by
+// Unlink is ignored: its slot was deleted together with the link and must not be taken for the
+// response to a request written after the reader was linked again.
+func (w *Writer) receive(pck *Packet, reader *Reader, link uint64) bool {
 	defer verifReceive(w, reader, pck)()
 	w.mu.Lock()
 	defer w.mu.Unlock()
@@ -244,7 +254,7 @@ func (w *Writer) receive(pck *Packet, reader *Reader) bool {
 	}
 
 	index := w.indexOfReader(reader)
-	if index < 0 {
+	if index < 0 || w.links[index] != link {
 		return false
 	}
 
